@@ -264,7 +264,11 @@ func doProgram(out *vlib.Out, p *gen.Program, lines []string, st *stats, seed ui
 			st.errLines++
 		}
 		what := ""
-		if refErr != rr.errs[i] {
+		if strings.HasPrefix(rr.msgs[i], "panic in thread") {
+			// a Go panic inside the VM (recovered by execute) is not one of the
+			// reference's runtime errors, whatever the reference outcome is
+			what = fmt.Sprintf("line %d %q: the VM panicked (%s); reference outcome %q", i, lines[i], rr.msgs[i][:min(len(rr.msgs[i]), 160)], refOut[i])
+		} else if refErr != rr.errs[i] {
 			what = fmt.Sprintf("line %d %q: reference outcome %q, implementation error=%v (%s)", i, lines[i], refOut[i], rr.errs[i], rr.msgs[i])
 		} else if d := sameObs(refSnaps[i], rr.snaps[i]); d != "" {
 			what = fmt.Sprintf("line %d %q: store differs from the reference (reference vs implementation): %s", i, lines[i], d)
@@ -273,6 +277,9 @@ func doProgram(out *vlib.Out, p *gen.Program, lines []string, st *stats, seed ui
 			kind := "store"
 			if refErr != rr.errs[i] {
 				kind = "outcome"
+			}
+			if strings.HasPrefix(rr.msgs[i], "panic in thread") {
+				kind = "panic"
 			}
 			out.Violate(className(flag, kind), what, rc)
 			break
@@ -302,7 +309,7 @@ func doProgram(out *vlib.Out, p *gen.Program, lines []string, st *stats, seed ui
 	for i, l := range lines {
 		ls[i] = gen.CoqBytes(l)
 	}
-	if flag == "" {
+	if flag == "" && !p.HasIncValue {
 		out.Add(vlib.App("CRef", vlib.N(id), core.Coq(), gen.CoqBytes(fileName), vlib.List(ls), tablesCoq(lib.Log),
 			vlib.List(errs), obsCoq(rc.Final)), rc, nontriv)
 	} else {
@@ -319,7 +326,7 @@ func doProgram(out *vlib.Out, p *gen.Program, lines []string, st *stats, seed ui
 		out.Count("outcome/" + strings.SplitN(o, ":", 2)[0])
 	}
 	// tie (1): model codegen of the checker's AST vs the real bytecode
-	if flag == "" {
+	if flag == "" && !p.HasIncValue {
 		dumpCase(out, core, obj, rc)
 	}
 }
